@@ -289,7 +289,10 @@ func runHistory(id int, seed int64, nops int, nTrig int, base string, pool *stor
 	if !broken && nTrig > 0 {
 		// header state assertions on the final state
 		ftoks := filterTokens(e, pool)
+		g.Resync()
+		btoks := append([]int64{}, g.Chain...)
 		e.Close()
+		lostTailCases(&h, base, dir, pool, btoks, ftoks)
 		startupCases(&h, seed, base, dir, pool, ftoks, nTrig, replay)
 	}
 	return h
@@ -487,6 +490,8 @@ func main() {
 				key = fmt.Sprintf("startup:first:filter=%v:%s", cs.Filter, cls)
 			case 3:
 				key = fmt.Sprintf("startup:first-chainservice:%s", cls)
+			case 5, 6:
+				key = fmt.Sprintf("lost-tail:%s:partial=%v", map[int]string{5: "block", 6: "filter"}[cs.Kind], cs.K%map[int]int{5: 80, 6: 32}[cs.Kind] != 0)
 			case 4:
 				hc := "stored-value"
 				if cs.AV == 1999999 {
